@@ -202,6 +202,30 @@ def workload(ck):
                 if ok:
                     lits.append({'src': src, 'kind': kind, 'feats': sorted(feats | {'len-%d' % ln}), 'value': v})
         fill(mod, lits)
+    # the repeat-geometry modules: one substring twice per literal, at every gap / length boundary of the back-reference
+    # encodings of the table compressors (all small gaps x all lengths; large gaps x a sample of lengths in quick)
+    if ck.quick:        # one module (.py or .pyx by seed); thorough: both
+        rmods = [Mod('c10R0', rng.choice(['.py', '.pyx']), 'utf-8', False)]
+    else:
+        rmods = [Mod('c10R0', '.py', 'utf-8', False), Mod('c10R1', '.pyx', 'utf-8', False)]
+    rlits = [[] for _ in rmods]
+    lengths = strlits.rep_lengths(rng, ck.quick)
+    geo = [(g, n) for g in strlits.rep_gaps(True, ck.quick) for n in lengths]
+    for g in strlits.rep_gaps(False, ck.quick):
+        if ck.quick:
+            geo += [(g, rng.choice([n for n in lengths if n < 35])), (g, rng.choice([n for n in lengths if n >= 35]))]
+        else:
+            geo += [(g, n) for n in lengths]
+    for _ in range(ck.pick(40, 400)):        # random geometries (log-uniform gap and length)
+        geo.append((int(2 ** rng.uniform(0, 14.1)) - 1, 3 + int(2 ** rng.uniform(0, 8.5)) - 1))
+    for serial, (g, n) in enumerate(geo):
+        kind = rng.choice(['str', 'bytes'])
+        src, feats = strlits.repeat_literal(rng, kind, g, n, serial % 4096, wide=rng.random() < 0.3)
+        ok, v = strlits.evaluate(src)
+        if ok and strlits.repeat_value_gap(v) == (g, n):
+            rlits[rng.randrange(len(rlits))].append({'src': src, 'kind': kind, 'feats': sorted(feats), 'value': v, 'geometry': (g, n)})
+    for mod, lits in zip(rmods, rlits):
+        fill(mod, lits)
     return mods
 
 
@@ -302,6 +326,7 @@ def main(ck):
         ctext = open(mod.c, encoding='utf-8', errors='replace').read()
         mod.algos, mod.plain_size = ladder_of(ctext)
         mod.has_ladder_macro = 'CYTHON_COMPRESS_STRINGS' in ctext
+        mod.lzss_tokens = strlits.lzss_tokens_of_c(ctext, mod.plain_size)
         for st in settings:
             d = tree.subdir('b%d' % st)
             so = os.path.join(d, mod.name + cy.EXT_SUFFIX)
@@ -384,7 +409,9 @@ def main(ck):
             where = 'only-' + '+'.join(sorted({effective_algo(s, mod.algos) for s in sts}))
         sp = specific(lit['feats'])
         guilty = [ft for ft in sp if (lit['kind'], ft) in canon_bad]
-        if 'canonical' in lit['feats']:
+        if 'repeat' in lit['feats']:
+            cause = 'repeat(%s)' % ','.join(ft for ft in sp if ft.startswith(('gap', 'replen')))
+        elif 'canonical' in lit['feats']:
             cause = '+'.join(sp) or 'plain'
         elif guilty:
             cause = '+'.join(guilty)
@@ -421,6 +448,20 @@ def main(ck):
         mod, f = fmap[(mname, fname)]
         if len(sts) >= 2 and mod.algos:
             nontrivial.add((f['form'], f['lit']['src']))
+    # reach of the repeat-geometry workload: back references really present in the emitted lzss streams
+    backrefs, at_bound, decoded = {}, {}, 0
+    bounds = set(strlits.rep_gaps(True) + strlits.rep_gaps(False))
+    for mod in mods:
+        toks = getattr(mod, 'lzss_tokens', None)
+        if toks is None:
+            continue
+        decoded += 1
+        for form, off, ln in toks:
+            k = '%s/%s' % (form, strlits.rep_len_label(ln))
+            backrefs[k] = backrefs.get(k, 0) + 1
+            if off in bounds:
+                at_bound[off] = at_bound.get(off, 0) + 1
+    geo_n = sum(1 for m in mods for f in m.funcs if 'repeat' in f['lit']['feats'])
     feat_hist = {}
     for mod in mods:
         for f in mod.funcs:
@@ -441,6 +482,8 @@ def main(ck):
                'rejected_samples': dropped[:12], 'cells': cells, 'algorithms_exercised': exercised,
                'modules_with_2plus_algorithms': len(multi), 'cells_not_exercised': not_exercised[:20],
                'cells_not_exercised_count': len(not_exercised), 'feature_hist': feat_hist,
+               'repeat_geometry': {'literals': geo_n, 'lzss_streams_decoded': decoded, 'lzss_back_references_by_form': backrefs,
+                                   'lzss_back_reference_offsets_at_boundaries': {str(k): v for k, v in sorted(at_bound.items())}},
                'forms': _count(f['form'] for m in mods for f in m.funcs),
                'max_literal_chars': max(len(f['lit']['src']) for m in mods for f in m.funcs),
                'outcome_hist': dict(sorted(hist.items(), key=lambda kv: -kv[1])[:20])},
